@@ -523,7 +523,10 @@ func init() {
 			g := p.sched.cur
 			idle := func() bool {
 				for _, o := range p.sched.gs {
-					if o != g && !o.done && !o.watchdog && (o.wait == nil || o.wait()) {
+					if o == g || o.done || o.watchdog || o.inQuiesce {
+						continue // a goroutine waiting for quiescence is itself idle
+					}
+					if o.wait == nil || o.wait() {
 						return false
 					}
 				}
